@@ -28,6 +28,11 @@ fn a_send7_then_drop(_a: sched::ActorId) {
   assert!(r.is_ok(), "C03: try_send into an empty channel failed");
   *txh() = None;
 }
+fn a_send7_then_close(_a: sched::ActorId) {
+  let r = txh().as_ref().unwrap().try_send(7);
+  assert!(r.is_ok(), "C03: try_send into an empty channel failed");
+  let _ = txh().as_ref().unwrap().close();
+}
 fn a_drop_tx(_a: sched::ActorId) {
   *txh() = None;
 }
@@ -265,6 +270,30 @@ fn c04_t_spsc_recv_timeout_vs_send_then_drop() {
     }
   }
   assert!(rx.as_ref().unwrap().try_recv() == Err(TryRecvError::Disconnected), "C04: no Disconnected after the drain");
+  kani::cover!(r.is_ok(), "timed receive got the straggler");
+  kani::cover!(r.is_err(), "timed out before the send landed");
+  std::mem::forget(rx);
+  std::mem::forget(tx);
+}
+
+/// Same window with a zero timeout and close() instead of drop (cheaper: fits the quick tier).
+#[kani::proof]
+#[kani::unwind(3)]
+fn c04_q_spsc_recv_timeout0_vs_send_then_close() {
+  setup!(1, 0, tx, rx);
+  sched::install(a_send7_then_close, 1, 1);
+  let r = rx.as_mut().unwrap().recv_timeout(Duration::ZERO);
+  sched::run_pending();
+  sched::uninstall();
+  match r {
+    Ok(v) => assert!(v == 7, "C01: received a value never sent"),
+    Err(RecvErrorTimeout::Timeout) => {
+      assert!(rx.as_ref().unwrap().try_recv() == Ok(7), "C04: sent value lost after the sender closed");
+    }
+    Err(RecvErrorTimeout::Disconnected) => {
+      assert!(false, "C04: Disconnected reported before the buffered value was drained");
+    }
+  }
   kani::cover!(r.is_ok(), "timed receive got the straggler");
   kani::cover!(r.is_err(), "timed out before the send landed");
   std::mem::forget(rx);
